@@ -107,7 +107,10 @@ def get_area_targets(
     R_cold_bal: np.ndarray,   
 ) -> dict:
     """Estimates a heat transfer area target based on counter-current heat transfer using vectorized numpy operations."""
-    if abs((H_hot_bal[0] - H_hot_bal[-1]) - (H_cold_bal[0] - H_cold_bal[-1])) > tol:
+    span_hot = H_hot_bal[0] - H_hot_bal[-1]
+    span_cold = H_cold_bal[0] - H_cold_bal[-1]
+    # Relative to the duty: the two spans are sums of floating-point numbers of that size
+    if abs(span_hot - span_cold) > tol * max(1.0, abs(span_hot), abs(span_cold)):
         # Raise an error due to heat flow imbalance, which is a requirement for this analysis. 
         raise ValueError("The temperature driving force plot requires the inputted composite curves to be balanced.")
 
